@@ -21,11 +21,13 @@ EXPLANATION = ("PROVED: (1) per line - for each of the 48 consistent dialects an
                "key order; (2) the vote - helpers._choose_dialect executed symbolically for every pattern of k <= 3 (thorough 4) peeked "
                "features voting for one of two values of a dialect key, with SYMBOLIC non-negative attribute counts as weights: the "
                "chosen value is the one with the larger total weight, ties go to the value seen first, order is the first-seen "
-               "concatenation of the features' keys, no feature => the default dialect.  Window (peek returns the first checklines+1 "
+               "concatenation of the features' keys, no feature => the default dialect; (3) the vote for ANY number of lines by the fold rule "
+               "(C09.fold.tally / .select / .order): one step of the tally loop from an arbitrary tally for an arbitrary next line, the "
+               "selection from an arbitrary tally, one step of the key-order loop from an arbitrary list of keys seen so far.  Window (peek returns the first checklines+1 "
                "features), verbatim use of a supplied dialect and dialect injection into every yielded feature are C13 obligations; "
                "format routing is C03.create_db.route / C10.update.route.  BOUNDED (not counted as proved): whole files through "
                "DataIterator / create_db / FeatureDB for all entry points, window positions and mixtures.")
-TRUSTED = ["T1 strings with holes; symbolic stable sort by branching", "contracts/attrspec.py"]
+TRUSTED = ["T1 strings with holes; symbolic stable sort by branching; the fold rule for the loops of _choose_dialect", "contracts/attrspec.py"]
 ASSUMPTIONS = ["A-P sorted() is stable, also with reverse=True; dict order is insertion order", "A-R, A-U as in C07"]
 PRECONDITIONS = ["a dialect key is asserted only when the line makes it observable (>= 2 attribute parts for the field separator, a multi-valued key for repeated keys, ...)"]
 FUNCTIONS = ["gffutils.parser:_split_keyvals", "gffutils.helpers:infer_dialect", "gffutils.helpers:_choose_dialect"]
@@ -171,6 +173,228 @@ def unit_vote(U):
         U.prove("C09.choose.empty#p%d" % p.index, "no peeked feature ==> the default dialect", [], z3.BoolVal(p.kind == "return" and p.value == constants.dialect), {})
 
 
+def unit_vote_fold(U):
+    """_choose_dialect for ANY number of peeked lines, by the fold rule.  Tally loop: the body is executed once from an
+    arbitrary tally (count[key] empty / one value seen / both values seen in either first-seen order, weights arbitrary
+    non-negative integers; the unanimous other keys carry an arbitrary total) for an arbitrary next line (either value,
+    arbitrary attribute count): the line's attribute count is added to its value's total, a value seen for the first time
+    is appended AFTER the ones seen before, nothing else changes.  Selection: from an arbitrary such tally the code after
+    the loop picks the larger total, ties going to the value seen first.  Key order: the body of the inner order loop,
+    from an arbitrary list of keys seen so far, appends the key iff it is not yet in the list."""
+    from pyvc.core import SBool, Ctx
+    from pyvc.interp import LoopExit
+    from pyvc.harness import install_loop_body_hook
+    candidates = {"field separator": (";", "; "), "fmt": ("gff3", "gtf"), "trailing semicolon": (False, True), "repeated keys": (False, True),
+                  "keyval separator": ("=", " "), "quoted GFF2 values": (False, True)}
+    if not U.thorough:
+        candidates = {k: candidates[k] for k in ("field separator", "fmt", "trailing semicolon")}
+    A_, B_, W_, T_ = z3.Int("A"), z3.Int("B"), z3.Int("w"), z3.Int("T")
+    vars_ = {"A": A_, "B": B_, "w": W_, "T": T_}
+
+    def mk_count(ctx, key, va, vb, shape):
+        for v in (A_, B_, W_, T_):
+            ctx.assume(v >= 0)
+        count = {k: {} for k in constants.dialect.keys()}
+        if shape != "empty":
+            for k in count:
+                if k == key:
+                    continue
+                dv = constants.dialect[k]
+                count[k][tuple(dv) if isinstance(dv, list) else dv] = SInt(T_)
+            if shape == "a":
+                count[key][va] = SInt(A_)
+            elif shape == "b":
+                count[key][vb] = SInt(B_)
+            elif shape == "ab":
+                count[key][va] = SInt(A_)
+                count[key][vb] = SInt(B_)
+            else:
+                count[key][vb] = SInt(B_)
+                count[key][va] = SInt(A_)
+        return count
+
+    def native(key, va, vb, seq):
+        """replay: real _choose_dialect on real features; seq = [(value, weight), ...]"""
+        feats = []
+        for i, (v, w) in enumerate(seq):
+            d = dict(constants.dialect)
+            d[key] = v
+            feats.append(F.Feature(attributes={"a%d_%d" % (i, j): ["x"] for j in range(w)}, dialect=d))
+        got = H._choose_dialect(feats)[key]
+        tot, first = {}, []
+        for v, w in seq:
+            tot[v] = tot.get(v, 0) + w
+            if v not in first:
+                first.append(v)
+        best = max(tot.values())
+        exp = [v for v in first if tot[v] == best][0]
+        return got, exp
+
+    def replay_for(key, va, vb):
+        def replay(m):
+            A, B, w = max(0, int(m.get("A", 1))), max(0, int(m.get("B", 1))), max(0, int(m.get("w", 1)))
+            seqs = [[(va, A), (vb, B), (va, w)], [(vb, B), (va, A), (vb, w)], [(va, 2), (vb, 1), (vb, 1)], [(vb, 2), (va, 1), (va, 1)], [(va, 1), (vb, 3), (va, 1), (va, 1)],
+                    [(va, 3), (vb, 2), (vb, 2), (va, 1)], [(vb, 1), (va, 1), (vb, 1), (va, 1), (va, 1), (vb, 1)], [(va, 0), (vb, 0)], [(va, 2), (vb, 2), (vb, 0)]]
+            obs = []
+            for s_ in seqs:
+                got, exp = native(key, va, vb, s_)
+                obs.append((s_, got, exp))
+                if got != exp:
+                    return {"inputs": {"key": key, "lines (value, attribute count)": s_}, "expected": exp, "observed": got, "violates": True}
+            return {"inputs": {"key": key}, "observed": "9 line sequences agree", "violates": False}
+        return replay
+
+    for key, (va, vb) in candidates.items():
+        replay = replay_for(key, va, vb)
+        for shape in ("empty", "a", "b", "ab", "ba"):
+            # ---- tally step
+            for nxt in (va, vb):
+                it = Interp()
+
+                def run(ctx, key=key, va=va, vb=vb, shape=shape, nxt=nxt):
+                    holder = {}
+
+                    def setup(env, c, iterable):
+                        if "count" not in env.vars:
+                            raise Undecided("the tally is no longer kept in a local named `count`")
+                        cnt = mk_count(c, key, va, vb, shape)
+                        holder["before"] = {k: dict(v) for k, v in cnt.items()}
+                        env.store("count", cnt)
+                        d = dict(constants.dialect)
+                        d[key] = nxt
+                        d["order"] = ["k0"]
+                        return Peeked(d, ["k0"], SInt(W_))
+                    install_loop_body_hook(it, "_choose_dialect", 0, setup)
+                    ctx.stash["holder"] = holder
+                    try:
+                        it.call(H._choose_dialect, [[Peeked(dict(constants.dialect), ["k0"], SInt(W_))]], {})
+                    except LoopExit as e:
+                        return e.env.vars.get("count")
+                    raise Undecided("loop hook not reached")
+                base = "C09.fold.tally[%s,%s,next=%r]" % (key, shape, nxt)
+                for p in U.explore(run, it):
+                    if p.kind != "return" or not isinstance(p.value, dict):
+                        U.prove(base + ".noraise#p%d" % p.index, "the step raises nothing (got %r)" % (p.value,), p.pc, z3.BoolVal(False), vars_, replay=replay)
+                        continue
+                    cnt, before = p.value, p.ctx.stash["holder"]["before"]
+                    old = before[key]
+                    want_order = list(old.keys()) + ([nxt] if nxt not in old else [])
+                    struct = set(cnt.keys()) == set(before.keys()) and list(cnt[key].keys()) == want_order
+                    goals = [z3.BoolVal(bool(struct))]
+                    if struct:
+                        for v in want_order:
+                            o = old.get(v, 0)
+                            oe = o.e if isinstance(o, SInt) else z3.IntVal(o)
+                            n_ = cnt[key][v]
+                            ne = n_.e if isinstance(n_, SInt) else (z3.IntVal(n_) if isinstance(n_, int) else None)
+                            goals.append(z3.BoolVal(False) if ne is None else (ne == oe + (W_ if v == nxt else 0)))
+                        for k2 in cnt:
+                            if k2 in (key, "order"):
+                                continue
+                            dv = constants.dialect[k2]
+                            ok2 = list(cnt[k2].keys()) == [dv]
+                            goals.append(z3.BoolVal(ok2))
+                            if ok2:
+                                n_ = cnt[k2][dv]
+                                ne = n_.e if isinstance(n_, SInt) else (z3.IntVal(n_) if isinstance(n_, int) else None)
+                                goals.append(z3.BoolVal(False) if ne is None else (ne == (T_ if shape != "empty" else 0) + W_))
+                    U.prove(base + "#p%d" % p.index, "one more line: its attribute count is added to the total of its value for every dialect key; a value seen for the first time comes after those seen before; no other total changes",
+                            p.pc, z3.And(*goals), vars_, replay=replay)
+            if shape == "empty":
+                continue
+            # ---- selection from an arbitrary tally
+            it = Interp()
+
+            def run2(ctx, key=key, va=va, vb=vb, shape=shape):
+                def hook(interp, env, node, iterable):
+                    if "count" not in env.vars:
+                        raise Undecided("the tally is no longer kept in a local named `count`")
+                    env.store("count", mk_count(Ctx.current, key, va, vb, shape))
+                    return None
+                it.loop_hooks[("_choose_dialect", 0)] = hook
+                return it.call(H._choose_dialect, [[Peeked(dict(constants.dialect), ["k0", "k1"], SInt(W_))]], {})
+            base = "C09.fold.select[%s,%s]" % (key, shape)
+            for p in U.explore(run2, it):
+                ok = p.kind == "return" and isinstance(p.value, dict)
+                goal = z3.BoolVal(False)
+                if ok:
+                    d = p.value
+                    ca, cb = z3.BoolVal(d.get(key) == va), z3.BoolVal(d.get(key) == vb)
+                    if shape == "a":
+                        spec = ca
+                    elif shape == "b":
+                        spec = cb
+                    else:
+                        spec = z3.If(A_ > B_, ca, z3.If(B_ > A_, cb, ca if shape == "ab" else cb))
+                    others = all(d.get(x) == constants.dialect[x] for x in constants.dialect if x not in (key, "order")) and set(d) == set(constants.dialect)
+                    goal = z3.And(spec, z3.BoolVal(bool(others and d.get("order") == ["k0", "k1"])))
+                U.prove(base + "#p%d" % p.index, "after the tally: the value with the larger total wins, a tie goes to the value seen first; unanimous keys keep their value", p.pc, goal, vars_, replay=replay)
+
+    # ---- key order: body of the inner order loop from an arbitrary list of keys seen so far
+    it = Interp()
+
+    class SeenList(object):
+        """an arbitrary list of strings: membership is an uninterpreted predicate, appends are recorded"""
+        _pyvc_model = True
+
+        def __init__(self):
+            self.member = z3.Function("seen_before", z3.StringSort(), z3.BoolSort())
+            self.appended = []
+
+        def __contains__(self, x):
+            zx = SStr.of(x).z3()
+            e = self.member(zx)
+            for a in self.appended:
+                e = z3.Or(e, SStr.of(a).z3() == zx)
+            return SBool(e)
+
+        def append(self, x):
+            self.appended.append(x)
+
+    def run3(ctx):
+        seen = SeenList()
+        o = SStr([Val(z3.String("o"))])
+
+        def skip(interp, env, node, iterable):
+            cnt = {k: {(tuple(v) if isinstance(v, list) else v): 1} for k, v in constants.dialect.items()}
+            env.store("count", cnt)
+            return None
+        it.loop_hooks[("_choose_dialect", 0)] = skip
+
+        def setup(env, c, iterable):
+            if "final_order" not in env.vars:
+                raise Undecided("the key order is no longer kept in a local named `final_order`")
+            env.store("final_order", seen)
+            return o
+        install_loop_body_hook(it, "_choose_dialect", 4, setup)
+        ctx.stash.update(seen=seen, o=o)
+        try:
+            it.call(H._choose_dialect, [[Peeked(dict(constants.dialect), ["k0"], SInt(W_))]], {})
+        except LoopExit as e:
+            return e.env.vars.get("final_order")
+        raise Undecided("loop hook not reached")
+
+    def replay_order(m):
+        mk = lambda keys: F.Feature(attributes={k: ["x"] for k in keys})
+        cases = [([["a", "b"], ["b", "c", "a", "d"]], ["a", "b", "c", "d"]), ([["x"], [], ["y", "x"], ["z", "y", "w"]], ["x", "y", "z", "w"]), ([["ID", "Name"], ["Name", "ID"], ["ID"]], ["ID", "Name"])]
+        for lines, exp in cases:
+            got = H._choose_dialect([mk(k) for k in lines])["order"]
+            if got != exp:
+                return {"inputs": lines, "expected": exp, "observed": got, "violates": True}
+        return {"observed": "3 key sequences agree", "violates": False}
+    for p in U.explore(run3, it):
+        st = p.ctx.stash
+        if p.kind != "return":
+            U.prove("C09.fold.order.noraise#p%d" % p.index, "the step raises nothing (got %r)" % (p.value,), p.pc, z3.BoolVal(False), {}, replay=replay_order)
+            continue
+        seen, o = st["seen"], st["o"]
+        was = seen.member(o.z3())
+        app = seen.appended
+        okid = p.value is seen and len(app) in (0, 1) and all(a is o for a in app)
+        U.prove("C09.fold.order#p%d" % p.index, "one more key: it is appended to the order iff it was not in it yet; the list itself and its earlier entries stay", p.pc,
+                z3.And(z3.BoolVal(bool(okid)), z3.Not(was) == z3.BoolVal(len(app) == 1)), {"o": z3.String("o")}, replay=replay_order)
+
+
 def unit_window(U):
     """the lines the vote sees: for Feature-iterable input _FeatureIterator.peek(checklines) hands the first
     min(checklines + 1, len) items to inference and leaves the source intact (same obligations as C13, shared)"""
@@ -309,7 +533,7 @@ def unit_bounded_repeated_empty(U):
             fails.append({"case": {"attributes": attr}, "expected": {"repeated keys": exp}, "observed": repr(e)})
     U.bounded_result("C09.bounded.repeated_key_with_empty_value", "'repeated keys' is reported whenever a key occurs twice on a line, whatever values the occurrences carry", "8 attribute strings x infer_dialect / DataIterator / FeatureDB", cases, fails)
 
-UNITS = [("bounded.repeated_empty", unit_bounded_repeated_empty), ("bounded.semicolon_values", unit_bounded_semicolon_values), ("bounded.reported_after_printing", unit_bounded_reported_after_printing), ("route", unit_route), ("fresh", unit_fresh), ("prebuilt", unit_prebuilt), ("line.kv", _unit_line(("k=v", 'k="v"'))), ("line.sp", _unit_line(('k "v"', "k v"))), ("vote", unit_vote), ("window", unit_window)]
+UNITS = [("bounded.repeated_empty", unit_bounded_repeated_empty), ("bounded.semicolon_values", unit_bounded_semicolon_values), ("bounded.reported_after_printing", unit_bounded_reported_after_printing), ("route", unit_route), ("fresh", unit_fresh), ("prebuilt", unit_prebuilt), ("line.kv", _unit_line(("k=v", 'k="v"'))), ("line.sp", _unit_line(('k "v"', "k v"))), ("vote", unit_vote), ("vote_fold", unit_vote_fold), ("window", unit_window)]
 try:
     from standins import C09 as _S
     UNITS = UNITS + list(_S.UNITS)
